@@ -75,6 +75,22 @@ def presentation_variants(d, rng):
         d = alias_leaves(d, rng)
     elif r < 0.2 and len(_leafnames(d["st"])) >= 2:
         d = case_species(d, rng)
+    if d.get("leafsyn") and rng.random() < 0.15:
+        d = rename_families(d, rng)
+    return d
+
+
+def rename_families(d, rng):
+    """Realistic family names: digit-leading next to letter-leading ones, numeric suffixes, names equal up to case."""
+    fams = sorted(set(g for v in d["leafsyn"].values() for g in v) | set(d.get("rootsyn") or []))
+    pool = ["16S", "trnI", "23S", "5S", "cas10", "Cas10", "cas2", "I-B", "x9", "x10"]
+    if len(fams) > len(pool):
+        return d
+    mp = dict(zip(fams, rng.sample(pool, len(fams))))
+    d = dict(d, leafsyn={l: [mp[g] for g in v] for l, v in d["leafsyn"].items()})
+    if d.get("rootsyn"):
+        d["rootsyn"] = [mp[g] for g in d["rootsyn"]]
+    d.pop("synstr", None)
     return d
 
 
